@@ -347,7 +347,7 @@ impl PlistEntry {
             None
         } else {
             for c in &bytes[idx..end] {
-                if (*c as char).is_whitespace() {
+                if c.is_ascii() && (*c as char).is_whitespace() {
                     idx += 1;
                     continue;
                 }
@@ -547,7 +547,7 @@ impl Plist {
                 end = start;
                 tstart = start;
                 trim = true;
-            } else if trim && (*ch as char).is_whitespace() {
+            } else if trim && ch.is_ascii() && (*ch as char).is_whitespace() {
                 /*
                  * Account for leading whitespace.
                  */
